@@ -296,32 +296,25 @@ theorem queryTail_yield (c : QCfg) (f d : Nat) (ts : List Tok) (qt : QueryTail) 
         · simp at h; obtain ⟨rfl, rfl⟩ := h
           simp [QueryTail.flatten, h0, e1, e2, limsFlat_append]
 
-theorem selectItem_yield (c : QCfg) (f d : Nat) (ts : List Tok) (v : SelectItem) (rest : List Tok)
-    (h : selectItem c f d ts = .ok (v, rest)) : ts = v.flatten ++ rest := by
-  have via : ∀ (v : SelectItem) (rest : List Tok),
-      (match parseE c f d ts with
-        | .error er => (.error er : Res SelectItem)
-        | .ok (e, rest) =>
-          if isBareFrom e then .error (syn "an expression, found: from")
-          else
-            match optAlias reservedForColumnAlias rest with
-            | .error er => .error er
-            | .ok (al, rest') => .ok (.expr e al, rest')) = .ok (v, rest) → ts = v.flatten ++ rest := by
-    intro v rest h
+theorem itemViaExpr_yield (c : QCfg) (f d : Nat) (ts : List Tok) (v : SelectItem) (rest : List Tok)
+    (h : itemViaExpr c f d ts = .ok (v, rest)) : ts = v.flatten ++ rest := by
+  unfold itemViaExpr at h
+  split at h
+  · simp at h
+  · rename_i e r1 he
+    have h1 := parseE_yield _ _ _ _ _ _ he
     split at h
     · simp at h
-    · rename_i e r1 he
-      have h1 := parseE_yield _ _ _ _ _ _ he
-      split at h
+    · split at h
       · simp at h
-      · split at h
-        · simp at h
-        · rename_i al r2 ha
-          have h2 := optAlias_yield _ _ _ _ ha
-          simp at h; obtain ⟨rfl, rfl⟩ := h
-          simp [SelectItem.flatten, h1, h2]
+      · rename_i al r2 ha
+        have h2 := optAlias_yield _ _ _ _ ha
+        simp at h; obtain ⟨rfl, rfl⟩ := h
+        simp [SelectItem.flatten, h1, h2]
+
+theorem selectItem_yield (c : QCfg) (f d : Nat) (ts : List Tok) (v : SelectItem) (rest : List Tok)
+    (h : selectItem c f d ts = .ok (v, rest)) : ts = v.flatten ++ rest := by
   unfold selectItem at h
-  simp only at h
   split at h
   · rename_i t r
     split at h
@@ -337,9 +330,9 @@ theorem selectItem_yield (c : QCfg) (f d : Nat) (ts : List Tok) (v : SelectItem)
           · simp at h
           · simp at h; obtain ⟨rfl, rfl⟩ := h
             simp [SelectItem.flatten] at this ⊢; exact this
-        · exact via _ _ h
+        · exact itemViaExpr_yield _ _ _ _ _ _ h
         · simp at h
-      · exact via _ _ h
+      · exact itemViaExpr_yield _ _ _ _ _ _ h
     · split at h
       · rename_i r'
         split at h
@@ -349,11 +342,11 @@ theorem selectItem_yield (c : QCfg) (f d : Nat) (ts : List Tok) (v : SelectItem)
           · simp at h
           · simp at h; obtain ⟨rfl, rfl⟩ := h
             simp [SelectItem.flatten] at this ⊢; exact this
-        · exact via _ _ h
+        · exact itemViaExpr_yield _ _ _ _ _ _ h
         · simp at h
-      · exact via _ _ h
-    · exact via _ _ h
-  · exact via _ _ h
+      · exact itemViaExpr_yield _ _ _ _ _ _ h
+    · exact itemViaExpr_yield _ _ _ _ _ _ h
+  · exact itemViaExpr_yield _ _ _ _ _ _ h
 
 theorem setQuant_yield (ts : List Tok) : ts = (setQuant ts).2.1 ++ (setQuant ts).2.2 := by
   unfold setQuant
@@ -371,13 +364,22 @@ theorem setQuant_yield (ts : List Tok) : ts = (setQuant ts).2.1 ++ (setQuant ts)
         · rename_i t r hk; simp [(eatKw_some_iff _ _ _ _).1 hk]
         · simp
 
+theorem leftRightTail_yield (k0 : JoinKind) (t : Tok) (r0 : List Tok) (k : JoinKind) (toks r : List Tok)
+    (h : leftRightTail k0 t r0 = .ok (.join k toks r)) : t :: r0 = toks ++ r := by
+  unfold leftRightTail at h
+  repeat' split at h
+  all_goals first
+    | (simp at h; done)
+    | (simp at h; obtain ⟨rfl, rfl, rfl⟩ := h; simp_all [eatKw_some_iff])
+
 theorem joinHead_yield (ts : List Tok) (k : JoinKind) (toks r : List Tok)
     (h : joinHead ts = .ok (.join k toks r)) : ts = toks ++ r := by
   unfold joinHead at h
   repeat' split at h
   all_goals first
     | (simp at h; done)
-    | (simp at h; obtain ⟨rfl, rfl, rfl⟩ := h; simp_all [eatKw_some_iff])
+    | (simp at h; obtain ⟨rfl, rfl, rfl⟩ := h; simp_all [eatKw_some_iff]; done)
+    | (rename_i hk; have := leftRightTail_yield _ _ _ _ _ _ h; simp_all [eatKw_some_iff]; done)
 
 theorem joinCstr_yield (c : QCfg) (f d : Nat) (ts : List Tok) (k : JoinCstr) (rest : List Tok)
     (h : joinCstr c f d ts = .ok (k, rest)) : ts = k.flatten ++ rest := by
@@ -532,7 +534,13 @@ theorem factorHead_yield (c : QCfg) (ts : List Tok) (fh : FactorHead) (h : facto
   split at h
   · simp at h
   · split at h
-    · simp at h; subst h; simp [FactorHead.Yield]
+    · rename_i lp rest hl
+      simp at h; subst h
+      unfold eatSym at hl
+      split at hl
+      · split at hl <;> simp at hl
+        obtain ⟨rfl, rfl⟩ := hl; simp [FactorHead.Yield]
+      · simp at hl
     · split at h
       · simp at h
       · split at h
